@@ -446,7 +446,10 @@ Definition delegate (cfg : config) (e : env) (w : world) (p : packet) (s0 : pst)
     result_of w (w_o w) true (ODelegated true) s2
   else result_of w (w_o w) false (ODelegated false) s1.
 
-Definition recv_with (vr : variant) (cfg : config) (acts : Z -> option action_ctrl) (e : env)
+(* [dlg]: the wrapped IBC application, as a function of the world, the packet and the state of the
+   external-call machinery; the chain instance is [delegate cfg e] (ICS-20), C07 is proved for any *)
+Definition recv_generic (vr : variant) (cfg : config) (acts : Z -> option action_ctrl)
+           (dlg : world -> packet -> pst -> recv_result) (e : env)
            (w : world) (p : packet) (tape : list bool) (lie : Z) : recv_result :=
   let s0 := {| ps_l := w_l w; ps_tape := tape; ps_trace := []; ps_moves := [] |} in
   let o := w_o w in
@@ -459,9 +462,9 @@ Definition recv_with (vr : variant) (cfg : config) (acts : Z -> option action_ct
   else if negb (existsb (Z.eqb protocol_ibc) (cfg_adapter_routes cfg)) then err "adapter not found" s0
   else
     match pk_data p with
-    | PRaw => delegate cfg e w p s0
+    | PRaw => dlg w p s0
     | PIcs denom amount sender receiver memo =>
-        if negb (is_orbiter_receiver vr cfg e receiver) then delegate cfg e w p s0
+        if negb (is_orbiter_receiver vr cfg e receiver) then dlg w p s0
         else
           (* 3. parse *)
           match parse_orbiter_packet vr e p denom amount memo with
@@ -490,6 +493,9 @@ Definition recv_with (vr : variant) (cfg : config) (acts : Z -> option action_ct
               end
           end
     end.
+
+Definition recv_with (vr : variant) (cfg : config) (acts : Z -> option action_ctrl) (e : env) :=
+  recv_generic vr cfg acts (delegate cfg e) e.
 
 (* [lie]: a fault-injection knob of the correspondence harness — every GetBalance answer about the
    orbiter account is off by [lie]; 0 in every theorem about the real chain. *)
